@@ -105,7 +105,7 @@ Lemma body_StoreInfo_CompareLocation_ok : body_StoreInfo_CompareLocation =
 Proof. reflexivity. Qed.
 
 Lemma adjust_rule_guards_ok : adjust_rule_guards =
-  ["_v3 != nil"; "_v3 != nil"; "len(_v1.EndKey) > 0 && bytes.Compare(_v1.EndKey, _v1.StartKey) <= 0"; "_v3 != nil"; "_v3 != nil"; "_v2 != _v1.GroupID"; "_v1.GroupID == """""; "_v1.ID == """""; "!validateRole(_v1.Role)"; "_v1.Count <= 0"; "_v1.Role == Leader && _v1.Count > 1"; "!validateOp(_v4.Op)"; "len(_v5) > 0 && !checkRule(_v1, _v5)"].
+  ["_v4 != nil"; "_v4 != nil"; "len(_v1.EndKey) > 0 && bytes.Compare(_v1.EndKey, _v1.StartKey) <= 0"; "_v4 != nil"; "_v4 != nil"; "_v2 != _v1.GroupID"; "_v1.GroupID == """""; "_v1.ID == """""; "!validateRole(_v1.Role)"; "_v1.Count <= 0"; "_v1.Role == Leader && _v1.Count > 1"; "!validateOp(_v5.Op)"; "len(_v6) > 0 && !checkRule(_v1, _v6)"].
 Proof. reflexivity. Qed.
 
 Lemma legacy_exclusive_labels_ok : legacy_exclusive_labels =
